@@ -22,7 +22,12 @@ func init() { commands["drive-post"] = drivePost }
 func postSchema(r *rand.Rand, d int) gen.M {
 	p := func(x float64) bool { return r.Float64() < x }
 	leaf := func() gen.M {
-		switch r.Intn(6) {
+		switch r.Intn(8) {
+		case 6: // defaults that are the zero value of their Go type are defaults too
+			return []gen.M{{"type": "boolean", "default": false}, {"type": "integer", "default": json.Number("0")}, {"type": "string", "default": ""},
+				{"type": "number", "default": json.Number("0.0")}, {"type": "array", "default": []interface{}{}}, {"type": "object", "default": gen.M{}}}[r.Intn(6)]
+		case 7:
+			return gen.M{"type": "boolean", "default": true}
 		case 4:
 			return gen.M{"default": json.Number("5")} // untyped: an explicit null is a valid, PRESENT value
 		case 5:
@@ -116,6 +121,7 @@ func drivePost(args []string) error {
 		}
 		st, _ := json.Marshal(s)
 		defs, _ := s["definitions"].(map[string]interface{})
+		var acc *validate.Result // batch use: results of several instances merged into one, post-processed after each merge
 		for j := 0; j < *per; j++ {
 			inst := gen.InstFor(r, s, defs, 5, 0.03)
 			if *what == "defaults" {
@@ -146,6 +152,16 @@ func drivePost(args []string) error {
 					return "invalid"
 				}
 				ev["verdict"] = "valid"
+				if *what != "defaults" {
+					// Prune starts from the result's own root data, so a merged result is not a batch for it
+				} else if j%3 == 2 && acc != nil {
+					// the accumulated result was already post-processed once (its field view is materialised); merging a
+					// further valid result into it and post-processing again must treat the new data like a one-shot run
+					acc.Merge(res)
+					res = acc
+				} else if j%3 == 1 {
+					acc = res
+				}
 				if *what == "defaults" {
 					post.ApplyDefaults(res)
 					resultJSON, _ = json.Marshal(data)
